@@ -233,15 +233,20 @@ class _Expr(SymEval):
         return out
 
     def e_ListComp(self, n):
-        if len(n.generators) != 1:
-            raise NotSymbolic("nested comprehension")
-        g = n.generators[0]
         out = []
-        for item in list(self.eval(g.iter)):
-            sub = _Expr(self.env, self.owner)
-            sub._bind(g.target, item)
-            if all(self._truth(sub.eval(c)) for c in g.ifs):
-                out.append(sub.eval(n.elt))
+
+        def level(ev, gens):
+            if not gens:
+                out.append(ev.eval(n.elt))
+                return
+            g = gens[0]
+            for item in list(ev.eval(g.iter)):
+                sub = _Expr(ev.env, self.owner)
+                sub._bind(g.target, item)
+                if all(self._truth(sub.eval(c)) for c in g.ifs):
+                    level(sub, gens[1:])
+
+        level(self, list(n.generators))
         return out
 
     def e_GeneratorExp(self, n):
@@ -931,6 +936,21 @@ class AccessorEval:
             raise _Break()
         if isinstance(st, ast.Continue):
             raise _Continue()
+        if isinstance(st, ast.Delete):
+            for t in st.targets:
+                if isinstance(t, ast.Name):
+                    if t.id not in local:
+                        raise Raised("NameError")
+                    del local[t.id]
+                elif isinstance(t, ast.Subscript):
+                    base = self._eval(t.value, local)
+                    if isinstance(base, (dict, list)):
+                        del base[_Expr(local, self).eval(t.slice) if isinstance(base, dict) else _Expr(local, self)._index(t.slice)]
+                    else:
+                        raise NotSymbolic("del on a non-container")
+                else:
+                    raise NotSymbolic("del target")
+            return
         if isinstance(st, ast.FunctionDef):
             g = next((h for h in self.prog.funcs.values() if h.node is st), None)
             if g is None or any(isinstance(x, (ast.Nonlocal, ast.Yield, ast.YieldFrom)) for x in ast.walk(st)) or st.decorator_list:
